@@ -40,7 +40,7 @@ pub const CTORS: &[Ctor] = &[
 /// Names probed at every site: variables, template arguments, fields, defs, a defset, an undeclared name.
 pub const POOL: &[&str] = &["u", "w", "p", "q", "f", "g", "x", "y", "s", "bp", "zz", "bv", "h2", "ys"];
 
-pub const WRAPPERS: usize = 20;
+pub const WRAPPERS: usize = 21;
 
 /// The probe name inside one of the use positions the indexer visits.
 pub fn wrap(w: usize, n: &str) -> E {
@@ -68,6 +68,8 @@ pub fn wrap(w: usize, n: &str) -> E {
         18 => E::BFoldl(Box::new(id(n)), Box::new(E::List(vec![int(1)])), "a".into(), "b".into(), Box::new(E::Bang("!add".into(), None, vec![id("a"), id("b")]))),
         // inside a !foreach body that has no computable type
         19 => E::BForeach("e".into(), Box::new(E::List(vec![int(1)])), Box::new(E::Cond(vec![(E::Bool(true), E::Bang("!add".into(), None, vec![id("e"), id(n)]))]))),
+        // behind a paste operand that has no computable type
+        20 => E::Paste(Box::new(E::Cond(vec![(E::Bool(true), E::Str("z".into()))])), Box::new(id(n))),
         _ => E::BFilter("e".into(), Box::new(E::List(vec![int(1), int(2)])), Box::new(E::Bang("!eq".into(), None, vec![id("e"), id(n)]))),
     }
 }
@@ -611,6 +613,31 @@ pub fn declaration_variants() -> Vec<Vec<Item>> {
         Item::Multiclass { doc: vec![], name: "MAfter".into(), targs: vec![TArg { ty: Ty::Int, name: "mt0".into(), default: None }], parents: vec![], body: vec![Item::Def { doc: vec![], blank: false, name: Some("_x".into()), parents: vec![CRef::with("P", vec![id("mt0")])], body: None }] },
         Item::Def { doc: vec![], blank: false, name: Some("after".into()), parents: vec![CRef::with("C", vec![])], body: None },
     ]);
+    // several parents: an override of a field of each of them is a child
+    {
+        let cls = |n: &str, fld: &str| Item::Class { doc: vec![], blank: false, name: n.into(), targs: vec![], parents: vec![], body: Some(vec![field(Ty::Int, fld, Some(int(0)), &[], false)]) };
+        out.push(vec![
+            base.clone(),
+            cls("PA", "fa"),
+            cls("PB", "fb"),
+            cls("PC", "fc"),
+            Item::Def {
+                doc: vec![],
+                blank: false,
+                name: Some("d".into()),
+                parents: vec![CRef::plain("PA"), CRef::plain("PB"), CRef::plain("PC")],
+                body: Some(vec![BI::Let { name: "fa".into(), value: int(1) }, BI::Let { name: "fb".into(), value: int(2) }, BI::Let { name: "fc".into(), value: int(3) }]),
+            },
+            Item::Class {
+                doc: vec![],
+                blank: false,
+                name: "C".into(),
+                targs: vec![TArg { ty: Ty::Int, name: "t0".into(), default: None }],
+                parents: vec![CRef::plain("PA"), CRef::plain("PB")],
+                body: Some(vec![BI::Let { name: "fb".into(), value: id("t0") }]),
+            },
+        ]);
+    }
     // an if / else-if / else chain with a declaration in every branch
     {
         let pd = |n: &str, a: i64| Item::Def { doc: vec![], blank: false, name: Some(n.into()), parents: vec![CRef::with("P", vec![int(a)])], body: None };
